@@ -351,3 +351,123 @@ def huge_page_check(ctx):
     got = toks[0] if toks else out[:60]
     ok = got == "f:SUCCESS:%d" % UINT16_PROBE
     return ok, "page size %d is accepted again; find(%d) after inserting 1..%d -> %s" % (HUGE_PAGE, UINT16_PROBE, UINT16_N, got), out
+
+
+# ------------------------------------------------------------------ tolerant sorted-list spec in Python (C02 states at the capacity)
+def _seq(xs, verbose):
+    if verbose:
+        return ",".join(str(x) for x in xs) if xs else "-"
+    h = 17
+    for x in xs:
+        h = (h * 1000003 + (x + 1000)) % 2147483647
+    return str(h)
+
+
+def tolerant_spec_ok(case, impl_obs):
+    """The sorted-list spec evaluated on the implementation's observable line, TOLERANT about the status of insert only:
+    an insert may answer OVERFLOW (set unchanged) once the set size has reached cap(page) (that is C01's known finding,
+    not C02's business); an absent key otherwise gives SUCCESS, a present one EXISTS.  Everything else -- find, remove
+    (out, next = successor, next equals find(successor)), lower_bound with both comparators, suffix walks, iter_equals
+    matrix, walk, destroy counts -- must be exactly what the sorted list says.  Returns True/False."""
+    t = case.split()
+    page, flags, ops = int(t[0]), t[1], t[2:]
+    verbose = "v" in flags
+    toks = impl_obs.split()
+    pos = [0]
+
+    def nxt():
+        if pos[0] >= len(toks):
+            raise ValueError("short line")
+        pos[0] += 1
+        return toks[pos[0] - 1]
+
+    st = []          # sorted list of (key, tag)
+    try:
+        for op in ops:
+            c, arg = op[0], op[1:]
+            if c in "iI":
+                k, tg = (int(x) for x in arg.split("."))
+                f = nxt().split(":")
+                present = any(x[0] == k for x in st)
+                if f[1] == "OVERFLOW":
+                    if len(st) < cap(page):
+                        return False
+                elif f[1] == "SUCCESS":
+                    if present:
+                        return False
+                    st.append((k, tg))
+                    st.sort()
+                elif f[1] == "EXISTS":
+                    if not present:
+                        return False
+                else:
+                    return False
+                if f[0] != "i" or int(f[2]) != len(st):
+                    return False
+            elif c == "r":
+                k = int(arg)
+                f, n, q = nxt().split(":"), nxt(), nxt()
+                hit = [x for x in st if x[0] == k]
+                if hit:
+                    st.remove(hit[0])
+                    succ = [x for x in st if x[0] > k]
+                    if f[:3] != ["r", "SUCCESS", str(hit[0][1])] or int(f[3]) != len(st):
+                        return False
+                    if n != ("n%d" % succ[0][1] if succ else "nend") or q != "q1":
+                        return False
+                else:
+                    if f[:3] != ["r", "NOT_FOUND", "-"] or int(f[3]) != len(st) or n != "nna" or q != "qna":
+                        return False
+            elif c == "f":
+                k = int(arg)
+                f, _k = nxt(), nxt()
+                hit = [x for x in st if x[0] == k]
+                if f != ("f:SUCCESS:%d" % hit[0][1] if hit else "f:NOT_FOUND:-"):
+                    return False
+            elif c == "w":
+                f, d = nxt(), nxt()
+                if f != "w:%d:%d:%s" % (len(st), len(st), _seq([x[1] for x in st], verbose)):
+                    return False
+                if not (d[0] == "d" and int(d[1:]) <= MAX_HEIGHT):
+                    return False
+            elif c in "bp":
+                k = int(arg)
+                f = nxt()
+                ge = [x for x in st if (x[0] >= k if c == "b" else (x[0] >> 4) >= (k >> 4))]
+                if f != "%s:SUCCESS:%s" % (c, ge[0][1] if ge else "end"):
+                    return False
+            elif c == "s":
+                k = int(arg)
+                f = nxt()
+                suf = [x[1] for x in st if x[0] >= k]
+                if f != "s:%d:%s:%s" % (len(suf), _seq(suf, verbose), "REACHED_END" if suf else "-"):
+                    return False
+            elif c == "e":
+                f = nxt()
+                n = len(st)
+                npos = n if n <= 8 else 8
+                idx = [j if n <= 8 else j * (n - 1) // 7 for j in range(npos)]
+                ps = idx + [0 if n > 0 else -1, -1, -1] + ([idx[0], idx[-1]] if n > 0 else [])
+                want = "".join("1" if a == b else "0" for a in ps for b in ps)
+                if f != "e:" + want:
+                    return False
+            elif c == "c":
+                f = nxt()
+                if f != "c:%d:%s:0" % (len(st), _seq(sorted(x[1] for x in st), verbose)):
+                    return False
+                st = []
+            elif c == "C":
+                if nxt() != "C:0":
+                    return False
+                st = []
+            elif c == "O":
+                nxt()
+            else:
+                return False
+        f = nxt()
+        if f != "F:%d:%s:%d" % (len(st), _seq(sorted(x[1] for x in st), verbose), len(st)):
+            return False
+        rest = toks[pos[0]:]
+        return "ud=ok" in rest and "roles=ok" in rest and "stored=0" in rest
+    except (ValueError, IndexError):
+        return False
